@@ -71,3 +71,37 @@ Theorem C04_decorators_in_declaration_order : forall depsf f d id l1 dd l2 st b 
   (decorated_state st2 dd, b2, ROk (VObj (dd_origin dd) (VStr (dd_tag dd) :: VStr id :: v1 :: args) [] [] (rt_serial st2 + 1))).
 Proof. exact decs_loop_last. Qed.
 Print Assumptions C04_decorators_in_declaration_order.
+
+(** ---- end to end (compile, then load into the run-time model; Proofs/E2EProofs.v): the run-time state holds what the configuration
+    declares, in the declared order.  [Hsteps] is the order of the compile steps of the shipped tool (proved of the live wiring in
+    Tie/EnvTie.v). ---- *)
+From GV Require Import Base.Str Base.Sort Model.Env Model.Input Model.Merge Model.Imports Model.Compile Model.Runner Runtime.RT Runtime.Load Proofs.RefsProofs Proofs.MergeProofs Proofs.E2EProofs.
+From Coq Require Import List ZArith.
+Import ListNotations.
+
+(** the decorators of the loaded container are, in order, the declared ones - own tag, own function (import expanded against the final
+    alias table), own arguments compiled one by one: nothing is sorted, grouped, shared or dropped *)
+Theorem C04_loaded_decorators_are_the_declared_ones : forall (E : env),
+  w_compiler_steps E = [CValidate; CMeta; CParams; CServices; CDecorators] ->
+  forall B i o c envv, compile E B i = ((o, None), c) ->
+  Forall2 (loaded_decorator E (meta_fns E i) (cs_imports c)) (i_decorators i) (rt_decorators (load E o c envv)).
+Proof. exact e2e_decorators. Qed.
+Print Assumptions C04_loaded_decorators_are_the_declared_ones.
+
+(** ... across merged files: file order *)
+Theorem C04_loaded_decorators_in_file_order : forall (E : env),
+  w_compiler_steps E = [CValidate; CMeta; CParams; CServices; CDecorators] ->
+  forall B files o c envv, compile E B (merge_all files) = ((o, None), c) ->
+  Forall2 (loaded_decorator E (meta_fns E (merge_all files)) (cs_imports c)) (concat (map i_decorators files)) (rt_decorators (load E o c envv)).
+Proof. exact e2e_decorators_merge_all. Qed.
+Print Assumptions C04_loaded_decorators_in_file_order.
+
+(** the order of [!tagged t] is decided by the DECLARED priorities (then by name) *)
+Theorem C04_tagged_order_by_declared_priority : forall (E : env),
+  w_compiler_steps E = [CValidate; CMeta; CParams; CServices; CDecorators] ->
+  forall B i o c envv t l1 n1 l2 n2 l3, compile E B i = ((o, None), c) -> NoDup (keys (i_services i)) ->
+  tagged (load E o c envv) t = l1 ++ n1 :: l2 ++ n2 :: l3 ->
+  exists d1 d2 p1 p2, lookup n1 (i_services i) = Some d1 /\ lookup n2 (i_services i) = Some d2 /\
+    declared_prio d1 t = Some p1 /\ declared_prio d2 t = Some p2 /\ ((p2 < p1)%Z \/ p1 = p2 /\ str_ltb n1 n2 = true).
+Proof. exact e2e_tagged_order. Qed.
+Print Assumptions C04_tagged_order_by_declared_priority.
